@@ -18,6 +18,17 @@ import datetime as _dt
 from .core import AnalysisError, norm
 
 
+def _plain(v):
+    """a value whose Python semantics the evaluator takes over unchanged"""
+    if v is None or isinstance(v, (str, int, float, bool, _dt.datetime, _dt.date, _dt.timedelta)):
+        return True
+    if isinstance(v, (tuple, list, set, frozenset)):
+        return all(_plain(x) for x in v)
+    if isinstance(v, dict):
+        return all(_plain(k) and _plain(x) for k, x in v.items())
+    return False
+
+
 class _Break(Exception):
     pass
 
@@ -97,7 +108,7 @@ class Machine:
                 if k is None:
                     m_ = self.ev(v, env)
                     if not isinstance(m_, dict):
-                        raise PyRaise("TypeError", "not a mapping")
+                        raise AnalysisError("string machine: ** of a value that is not a dictionary in %s" % norm(n)[:60])
                     out.update(m_)
                 else:
                     out[self.ev(k, env)] = self.ev(v, env)
@@ -164,7 +175,9 @@ class Machine:
                     return a ** b
                 return a * b
             except TypeError as e:
-                raise PyRaise("TypeError", str(e))
+                if _plain(a) and _plain(b):
+                    raise PyRaise("TypeError", str(e))          # Python's own verdict on two fully modelled values
+                raise AnalysisError("string machine: %s (an operation the evaluator models only in part: %s)" % (norm(n)[:60], e))
             except ZeroDivisionError as e:
                 raise PyRaise("ZeroDivisionError", str(e))
             except (OverflowError, ValueError) as e:
@@ -174,7 +187,9 @@ class Machine:
             if isinstance(a, str) and isinstance(b, (str, int, float, tuple)):
                 try:
                     return a % b
-                except (TypeError, ValueError) as e:
+                except TypeError as e:
+                    raise AnalysisError("string machine: %s (%s)" % (norm(n)[:60], e))
+                except ValueError as e:
                     raise PyRaise(type(e).__name__, str(e))
             if isinstance(a, (int, float)) and isinstance(b, (int, float)):
                 return a % b
@@ -226,14 +241,14 @@ class Machine:
             except KeyError as e:
                 raise PyRaise("KeyError", str(e))
             except TypeError as e:
-                raise PyRaise("TypeError", str(e))
+                raise AnalysisError("string machine: %s (an operation the evaluator models only in part: %s)" % (norm(n)[:60], e))
         if isinstance(n, ast.Call) and isinstance(n.func, ast.Attribute) and (all(k.arg for k in n.keywords) or n.func.attr in ("format", "update")):
             kw = {}
             for k in n.keywords:
                 if k.arg is None:
                     m_ = self.ev(k.value, env)
                     if not isinstance(m_, dict):
-                        raise PyRaise("TypeError", "argument after ** must be a mapping")
+                        raise AnalysisError("string machine: ** of a value that is not a dictionary in %s" % norm(n)[:60])
                     kw.update(m_)
                 else:
                     kw[k.arg] = self.ev(k.value, env)
@@ -247,7 +262,9 @@ class Machine:
                         r = getattr(base, n.func.attr)(*args, **kw)
                     except ValueError as e:
                         raise PyRaise("ValueError", str(e))
-                    except (TypeError, IndexError, KeyError) as e:
+                    except TypeError as e:
+                        raise AnalysisError("string machine: %s (%s)" % (norm(n)[:60], e))
+                    except (IndexError, KeyError) as e:
                         raise PyRaise(type(e).__name__, str(e))
                     return tuple(r) if n.func.attr in ("partition", "rpartition") else r
             if not kw or n.func.attr == "update":
@@ -261,10 +278,10 @@ class Machine:
                         args = [self.ev(a, env) for a in n.args]
                         try:
                             r = getattr(base, n.func.attr)(*args, **kw)
-                        except (ValueError, KeyError, TypeError) as e:
+                        except TypeError as e:
+                            raise AnalysisError("string machine: %s (%s)" % (norm(n)[:60], e))
+                        except (ValueError, KeyError) as e:
                             raise PyRaise(type(e).__name__, str(e))
-                        if n.func.attr in ("items", "keys", "values"):
-                            r = tuple(r)
                         return r
         if isinstance(n, ast.Call) and isinstance(n.func, ast.Name) and n.func.id == "isinstance" and "isinstance" not in env and len(n.args) == 2 and not n.keywords:
             v = self.ev(n.args[0], env)
@@ -305,7 +322,9 @@ class Machine:
             if isinstance(base_, (_dt.datetime, _dt.date, _dt.timedelta)) and n.func.attr in DATE_METHODS:
                 try:
                     return getattr(base_, n.func.attr)(*[self.ev(a, env) for a in n.args], **{k.arg: self.ev(k.value, env) for k in n.keywords})
-                except (ValueError, OverflowError, TypeError) as e:
+                except TypeError as e:
+                    raise AnalysisError("string machine: %s (%s)" % (norm(n)[:60], e))
+                except (ValueError, OverflowError) as e:
                     raise PyRaise(type(e).__name__, str(e))
         if isinstance(n, ast.Call) and isinstance(n.func, ast.Name) and n.func.id in ("datetime", "timedelta") and n.func.id not in env \
                 and n.func.id not in self.funcs:
@@ -315,7 +334,7 @@ class Machine:
                 if k.arg is None:
                     m_ = self.ev(k.value, env)
                     if not isinstance(m_, dict):
-                        raise PyRaise("TypeError", "argument after ** must be a mapping")
+                        raise AnalysisError("string machine: ** of a value that is not a dictionary in %s" % norm(n)[:60])
                     kw.update(m_)
                 else:
                     kw[k.arg] = self.ev(k.value, env)
@@ -344,11 +363,14 @@ class Machine:
                 if k.arg is None:
                     m_ = self.ev(k.value, env)
                     if not isinstance(m_, dict):
-                        raise PyRaise("TypeError", "argument after ** must be a mapping")
+                        raise AnalysisError("string machine: ** of a value that is not a dictionary in %s" % norm(n)[:60])
                     out.update(m_)
                 else:
                     out[k.arg] = self.ev(k.value, env)
             return out
+        if isinstance(n, ast.Call) and not n.keywords and len(n.args) <= 1 and isinstance(n.func, (ast.Name, ast.Attribute)) \
+                and (n.func.id if isinstance(n.func, ast.Name) else n.func.attr) == "OrderedDict" and "OrderedDict" not in env:
+            return dict(self.ev(n.args[0], env)) if n.args else {}          # (insertion order is the order of a dict)
         if isinstance(n, ast.Call) and not n.keywords and len(n.args) <= 1 and "Counter" not in env and \
                 ((isinstance(n.func, ast.Name) and n.func.id == "Counter") or (isinstance(n.func, ast.Attribute) and n.func.attr == "Counter"
                                                                                and isinstance(n.func.value, ast.Name) and n.func.value.id == "collections")):
@@ -364,13 +386,13 @@ class Machine:
                     try:
                         return tuple(BUILTINS[n.func.id](*args))
                     except TypeError as e:
-                        raise PyRaise("TypeError", str(e))
+                        raise AnalysisError("string machine: %s (an operation the evaluator models only in part: %s)" % (norm(n)[:60], e))
                 try:
                     return BUILTINS[n.func.id](*args)
                 except ValueError as e:
                     raise PyRaise("ValueError", str(e))
                 except TypeError as e:
-                    raise PyRaise("TypeError", str(e))
+                    raise AnalysisError("string machine: %s (an operation the evaluator models only in part: %s)" % (norm(n)[:60], e))
             if isinstance(n.func, ast.Attribute) and n.func.attr in STR_METHODS:
                 base = self.ev(n.func.value, env)
                 if not isinstance(base, str):
@@ -379,7 +401,7 @@ class Machine:
                 try:
                     return getattr(base, n.func.attr)(*args)
                 except TypeError as e:
-                    raise PyRaise("TypeError", str(e))
+                    raise AnalysisError("string machine: %s (an operation the evaluator models only in part: %s)" % (norm(n)[:60], e))
         # regular expressions of the standard library: the pattern is a constant of the source, the engine is Python's own
         if isinstance(n, ast.Call) and not n.keywords and isinstance(n.func, ast.Attribute):
             import re as _re
@@ -431,7 +453,9 @@ class Machine:
                     spec = self.ev(v.format_spec, env) if v.format_spec is not None else ""
                     try:
                         out += format(val, spec)
-                    except (ValueError, TypeError) as e:
+                    except TypeError as e:
+                        raise AnalysisError("string machine: %s (%s)" % (norm(n)[:60], e))
+                    except ValueError as e:
                         raise PyRaise(type(e).__name__, str(e))
                 else:
                     raise AnalysisError("string machine: formatted string %s" % norm(n)[:60])
@@ -475,7 +499,9 @@ class Machine:
                 raise AnalysisError("string machine: store into %s" % type(box).__name__)
             try:
                 box[self.ev(st.targets[0].slice, env)] = self.ev(st.value, env)
-            except (IndexError, TypeError) as e:
+            except TypeError as e:
+                raise AnalysisError("string machine: store %s (%s)" % (norm(st)[:60], e))
+            except IndexError as e:
                 raise PyRaise(type(e).__name__, str(e))
             return
         if isinstance(st, ast.Assign):
@@ -486,7 +512,14 @@ class Machine:
         if isinstance(st, ast.AugAssign) and isinstance(st.target, ast.Name) and isinstance(st.op, (ast.Add, ast.Sub)):
             cur = self.ev(ast.Name(id=st.target.id, ctx=ast.Load()), env)
             v = self.ev(st.value, env)
-            env[st.target.id] = cur + v if isinstance(st.op, ast.Add) else cur - v
+            try:
+                env[st.target.id] = cur + v if isinstance(st.op, ast.Add) else cur - v
+            except TypeError as e:
+                if _plain(cur) and _plain(v):
+                    raise PyRaise("TypeError", str(e))
+                raise AnalysisError("string machine: %s (%s)" % (norm(st)[:60], e))
+            except (OverflowError, ValueError) as e:
+                raise PyRaise(type(e).__name__, str(e))
             return
         if isinstance(st, ast.If):
             self.block(st.body if self.ev(st.test, env) else st.orelse, env)
@@ -506,7 +539,7 @@ class Machine:
             return
         if isinstance(st, ast.For):
             seq = self.ev(st.iter, env)
-            if not isinstance(seq, (str, tuple, list, set, frozenset, dict)):
+            if not isinstance(seq, (str, tuple, list, set, frozenset, dict, type({}.keys()), type({}.values()), type({}.items()))):
                 raise AnalysisError("string machine: loop over %s" % type(seq).__name__)
             broke = False
             for x in (sorted(seq) if isinstance(seq, (set, frozenset)) else list(seq)):
